@@ -765,8 +765,12 @@ func TestVerif_C13(t *testing.T) {
 	if w.thorough() {
 		maxCuts = 2
 	}
+	presetSig := ""
 	fail := func(v string, c *c13Case) {
 		sig := c13Sig(v)
+		if presetSig != "" {
+			sig = presetSig
+		}
 		res.FailCount[sig]++
 		if res.FailCount[sig] == 1 && len(res.Failures) < 6 {
 			res.Failures = append(res.Failures, &vrt.Failure{Kind: "oracle", Sig: sig, Msg: v, Params: map[string]interface{}{"case": c}})
@@ -851,10 +855,12 @@ func TestVerif_C13(t *testing.T) {
 				v, c := c13Check(st, k, evs, 1)
 				c13CutFilter = nil
 				if v != "" {
+					presetSig = c13Sig(v) // (classified on the full text)
 					if len(v) > 900 {
-						v = v[:200] + " ... " + v[len(v)-600:] // (the event dump of a large case is long; the reason is at the end)
+						v = v[:200] + " ... " + v[len(v)-600:] // (the event dump of a large case is long)
 					}
 					fail(v, c)
+					presetSig = ""
 				}
 				res.Outcomes["large-events"]++
 			}
